@@ -158,6 +158,21 @@ CODING_BIOTYPES = ["protein_coding", "mRNA"]
 NONCODING_BIOTYPES = ["ncRNA", "tRNA", "rRNA", "lncRNA", "misc_RNA", "snoRNA", "pseudogene", "transcript"]
 
 
+def nest_block(draw, blocks, prob=5):
+    """one time in `prob`: add a block nested strictly inside one of the blocks (overlapping blocks are documented as valid; a
+    later-starting block then ends before an earlier one, so starts and ends are not sorted alike). Edits `blocks` in place."""
+    if draw(st.integers(0, prob - 1)):
+        return False
+    cands = [b for b in blocks if b[1] - b[0] >= 3]
+    if not cands:
+        return False
+    b = draw(st.sampled_from(cands))
+    a = draw(st.integers(b[0] + 1, b[1] - 2))
+    blocks.append([a, draw(st.integers(a + 1, b[1] - 1))])
+    blocks.sort(key=lambda x: (x[0], x[1]))
+    return True
+
+
 @st.composite
 def simple_qualifiers(draw, max_keys=3):
     keys = draw(st.lists(st.sampled_from(["note", "color", "evidence", "db_xref", "inference", "xkey", "identity", "names"]), max_size=max_keys, unique=True))
